@@ -242,13 +242,18 @@ impl Run {
                 "wall_s": u.wall_s,
             }));
         }
+        let mut caps = self.caps.clone();
+        if self.sink.too_many() {
+            caps.push("more than 100000 violations: exploration was cut short after that point".to_string());
+        }
         json!({
             "property_id": self.prop, "tier": self.tier, "seed": self.seed, "config": self.config,
             "states": total.states, "transitions": total.transitions, "validated": total.validated,
             "evaluations": total.evals, "distinct_nontrivial": total.nontrivial,
             "outcomes": total.hist.iter().map(|(k, v)| (k.to_string(), json!(v))).collect::<Map<String, Value>>(),
             "universes": unis, "samples": self.sink.take_samples(), "notes": self.sink.take_notes(),
-            "assumptions": self.assumptions, "rule": self.rule, "caps_hit": self.caps,
+            "assumptions": self.assumptions, "rule": self.rule,
+            "caps_hit": caps,
             "all_universes_enumerated_completely": all_exh,
             "violations": self.sink.violation_count(), "wall_s": self.start.elapsed().as_secs_f64(),
             "extra": Value::Object(self.extra.clone()),
